@@ -170,6 +170,7 @@ package server
 //@   at-call (*allocation.Allocation).AddPermission assert [C01,C04:own-allocation] recv == alloc
 //@   at-call (*allocation.Allocation).AddPermission assert [C01,C02,C07,C14:timeout] arg0.timeout == req.PermissionTimeout
 //@   at-call (*allocation.Allocation).AddPermission assert [C01:peer] peerMatches(arg0.Addr, m)
+//@   ensures [C01,C19:count-installed] (res == nil && old(addCount) < 9223372036854775807 ==> addCount == old(addCount) + 1) && (res != nil ==> addCount == old(addCount))
 //@   assigns entries(alloc.permissions), timers, granted, errorCode, addCount
 
 //@ func handleCreatePermissionRequest
@@ -177,6 +178,7 @@ package server
 //@   fresh authOK, granted
 //@   at-call buildAndSend assert [C19:correlated] respondsTo(req, stunMsg, arg0, arg1, arg2)
 //@   at-call buildAndSend assert [C03,C19:success-only-authed] int(typeOf(arg2).Class) == 2 ==> authOK
+//@   at-call buildAndSend assert [C01,C19:success-iff-permissions-installed] authOK ==> ((int(typeOf(arg2).Class) == 2) == (addCount != 0)) && ((int(typeOf(arg2).Class) == 3) == (addCount == 0))
 //@   at-call (*allocation.Manager).GetAllocationForUserID assert [C03,C04:own-tuple] recv == req.AllocationManager && ownTuple(arg0, req) && authOK && arg1 == authUser
 //@   ensures [C03:answered-only-requester] forall c :: c != req.Conn ==> pktWrites[c] == old(pktWrites[c])
 
